@@ -355,7 +355,7 @@ def run(chk: Check) -> None:
     reqs, expect = [], []
     base = WORK / f"c17m-{os.getpid()}"
     try:
-        for ti in range(25 * n):
+        for ti in range(25 if tier == "quick" else 200):
             tree = treegen.gen_tree(rng, ignore_lines=IGNORE_LINES + PATH_IGNORE_LINES, gitignore_lines=["*.txt", "b.md", "sub/", "deep/", "/a.md", "docs/a.md", "src/**/b.md", "!README.md", "!b.md", "*.md"])
             root = treegen.materialize(base, tree)
             for s in rng.sample(SETTINGS, 4):
